@@ -549,9 +549,11 @@ func (c *Ctx) cmp(op Op, a, b *Term) *Term {
 	return c.mk(&Term{Op: op, Sort: SBool, Args: args}, key(op, SBool, "", args))
 }
 
-func (c *Ctx) Lt(a, b *Term) *Term { return c.cmp(OLt, a, b) }
+// Lt is represented as the negation of the converse Le so that "x < 0" and
+// "not (0 <= x)" are one term.
+func (c *Ctx) Lt(a, b *Term) *Term { return c.Not(c.cmp(OLe, b, a)) }
 func (c *Ctx) Le(a, b *Term) *Term { return c.cmp(OLe, a, b) }
-func (c *Ctx) Gt(a, b *Term) *Term { return c.cmp(OLt, b, a) }
+func (c *Ctx) Gt(a, b *Term) *Term { return c.Lt(b, a) }
 func (c *Ctx) Ge(a, b *Term) *Term { return c.cmp(OLe, b, a) }
 
 // UF applies an uninterpreted function (declared on first use).
@@ -714,4 +716,31 @@ func Eval(t *Term, m map[string]*big.Rat) (*big.Rat, error) {
 		return r, nil
 	}
 	return ev(t)
+}
+
+// String renders the term inline (depth-limited), for debugging.
+func (t *Term) String() string { return t.str(6) }
+
+func (t *Term) str(d int) string {
+	switch t.Op {
+	case OConst:
+		switch t.Sort {
+		case SBool:
+			return fmt.Sprint(t.B)
+		case SInt:
+			return t.I.String()
+		}
+		return t.R.RatString()
+	case OVar:
+		return t.Name
+	}
+	if d == 0 {
+		return fmt.Sprintf("t%d", t.ID)
+	}
+	names := map[Op]string{OAdd: "+", OMul: "*", ONeg: "-", OIte: "ite", OEq: "=", OLt: "<", OLe: "<=", ONot: "not", OAnd: "and", OOr: "or", OToReal: "real", ODivR: "/", OUF: t.Name}
+	s := "(" + names[t.Op]
+	for _, a := range t.Args {
+		s += " " + a.str(d-1)
+	}
+	return s + ")"
 }
